@@ -4,8 +4,26 @@ from props import _orm
 def _shape(rng, pool, cfg):
     """retry after rollback: objects that were added (and possibly deleted again) inside a transaction that is rolled back are added
     again to the same session"""
-    if rng.random() > 0.2:
+    x = rng.random()
+    if x > 0.3:
         return None
+    if x > 0.2:
+        # an object is expunged (or the session closed) in the middle of a transaction that has flushed changes of it - inserted,
+        # key-switched or deleted - possibly inside a savepoint; then the transaction ends one way or the other
+        cfg["expunge_midtxn"] = True
+        cfg["close_midtxn"] = rng.random() < 0.5
+        r = lambda: rng.randrange(64)
+        prog = [["mk", 6, 1 + 3 * rng.randrange(20)] for _ in range(rng.randint(1, 2))] + [["commit", 0, 0]]
+        prog.append([rng.choice(("delete", "k_rename", "set", "delete")), r(), r()])
+        prog.append(["flush", 0, 0])
+        if rng.random() < 0.6:
+            prog.append(["begin_nested", 0, 0])
+        prog.append([rng.choice(("expunge", "expunge", "close")), r(), 1 + 2 * rng.randrange(30)])
+        for _ in range(rng.randint(0, 2)):
+            prog.append([rng.choice(("sp_commit", "sp_rollback", "flush", "mk")), r(), r()])
+        prog.append([rng.choice(("commit", "rollback", "commit")), 0, 0])
+        prog += [[rng.choice(pool), r(), r()] for _ in range(rng.randint(0, 6))]
+        return prog
     cfg["readd"] = True
     r = lambda: rng.randrange(64)
     odd3 = lambda: 1 + 3 * rng.randrange(20)
